@@ -217,6 +217,7 @@ def _run(pid, args, seed, scratch, t0):
     classes = {}
     samples = []
     viol = []
+    herr = []
     extra = {}
     hashes = set()
     finished = 0
@@ -231,7 +232,9 @@ def _run(pid, args, seed, scratch, t0):
                 except ValueError:
                     continue
                 k = rec.get("t")
-                if k == "violation":
+                if k == "harness_error":
+                    herr.append(rec)
+                elif k == "violation":
                     viol.append(rec)
                 elif k == "sample":
                     samples.append(rec["case"])
@@ -353,6 +356,10 @@ def _run(pid, args, seed, scratch, t0):
     for key, ks in sorted(known_seen.items()):
         print(f"KNOWN-FINDING: property={pid} {key}: {known[key]['description']} "
               f"(seen {ks['count']}x, e.g. {json.dumps(ks['witness'], default=repr)[:300]})")
+    for rec in herr[:2]:
+        # a bug in the machinery (never a verdict about hy): show it and keep the case
+        pth = write_replay(pid, rec["case"], {"harness_error": rec["tb"]}, tier, seed)
+        sys.stderr.write(f"--- harness error (case saved to {pth})\n{rec['tb']}\n")
     if confirmed:
         for (case, res), path in zip(confirmed, replay_paths):
             print(f"  why: {str(res.get('why'))[:600]}")
